@@ -57,7 +57,7 @@ pub fn gen_cfg(cfg: &Cfg) -> GenCfg {
 }
 
 pub fn run(cfg: &Cfg, rep: &mut Report) {
-  let total = cfg.n(120_000, 4_000_000);
+  let total = cfg.n(120_000, 12_000_000);
   let gcfg = gen_cfg(cfg);
   let mut rng = Rng::new(cfg.seed ^ 0xC02);
   for i in 0..total {
@@ -148,7 +148,7 @@ pub fn run(cfg: &Cfg, rep: &mut Report) {
   }
 
   // thread part: an emitting thread races the unsubscribing thread (baton scheduler)
-  let n = cfg.n(6_000, 250_000);
+  let n = cfg.n(6_000, 600_000);
   let fams = [0usize, 2, 3, 4, 5, 6, 7, 8, 9, 11, 12, 13];
   super::thr::campaign(cfg, rep, "thr", n, 0xC02F, &mut |r: &mut Rng| {
     let f = fams[r.below(fams.len())];
